@@ -100,9 +100,10 @@ func (p *parser) parseStatement() ast.Statement {
 		comments = p.comments.FetchAll()
 	}
 
+	start := p.idx
 	expression := p.parseExpression()
 
-	if identifier, isIdentifier := expression.(*ast.Identifier); isIdentifier && p.token == token.COLON {
+	if identifier, isIdentifier := expression.(*ast.Identifier); isIdentifier && identifier.Idx == start && p.token == token.COLON {
 		// LabelledStatement
 		colon := p.idx
 		if p.mode&StoreComments != 0 {
